@@ -5,7 +5,10 @@ b. spawn_push passes one --force-with-lease=<dst>:<expected> per ref (from RefTo
    refspecs, over the same slice; no bare --force / -f / + refspec
 c. RefToPush is built only by RefToPush::new with the expectation looked up by the refspec's destination; push_updates
    fills that map with (update.qualified_name -> update.targets.before) and the refspec for the same name
-d. after the push, jj's record of a remote ref is updated only for refs git reported as pushed
+d. after the push, jj's record of a remote ref is updated only for refs git reported as pushed; the result of each ref
+   is looked up by pairing `targets.bookmarks` / `targets.tags` positionally with the vector of ref updates, so that
+   vector must be built from them in order (map/chain only: no sort, filter, dedup, reverse) and split at
+   bookmarks.len()
 """
 from jjv.lib import (format_shape, format_sites, name_matches, norm, show, strip, term_calls, term_fields, term_leaves,
                      walk)
@@ -34,6 +37,7 @@ def run(ctx):
     rule_b(ctx)
     rule_c(ctx)
     rule_d(ctx)
+    rule_e(ctx)
 
 
 def rule_a(ctx):
@@ -230,3 +234,53 @@ def rule_d(ctx):
                         ok = set(fb) <= {"before"} and set(fa) <= {"after"}
                         ctx.ob("C45.d/before-after-not-swapped", b.id, ok, "Diff{before: ..before.., after: ..after..}" if ok
                                else "the recorded (before) and new (after) positions are swapped when building the update")
+
+
+ORDER_PRESERVING = ("re:^std::iter::Iterator::(map|cloned|copied|by_ref)$", "re:^itertools::(chain|Itertools::collect_vec)$",
+                    "re:^std::iter::(Iterator::chain|Iterator::collect|IntoIterator::into_iter|zip)$",
+                    "re:^core::slice::<impl \\[T\\]>::iter$", "re:::deref$", "re:::index$", "re:^std::vec::Vec::<.*>::len$",
+                    "re:^closure:", "re:::as_ref$", "re:::clone$")
+
+
+def rule_e(ctx):
+    """positional pairing of targets.* with ref_updates in push_refs"""
+    F = ctx.F
+    root = G + "push_refs"
+    n = 0
+    for b in F.family_bodies(root):
+        sl = F.slicer(b.id)
+        for c in b.calls:
+            if c.cleanup or not name_matches(c.res or c.decl or "", "re:^std::iter::zip$|Iterator::zip$"):
+                continue
+            a0, a1 = sl.call_arg(c, 0), sl.call_arg(c, 1)
+            f0 = {w[3] for w in walk(a0) if w[0] == "field" and w[3] in ("bookmarks", "tags")}
+            if len(f0) != 1:
+                continue
+            which = next(iter(f0))
+            n += 1
+            ctx.fn_seen(b.id)
+            # the other side: a slice of collect(chain(map(iter(targets.bookmarks)), map(iter(targets.tags))))
+            bad = sorted({x[1].split("::")[-1] for x in term_calls(a1)
+                          if (x[1].startswith("std::iter::") or x[1].startswith("itertools::") or "slice" in x[1] or
+                              x[1].startswith("std::vec::Vec")) and not name_matches(x[1], ORDER_PRESERVING)})
+            muts = sorted({str(w[2]) if len(w) > 2 else "?" for w in walk(a1) if w[0] == "mut"})
+            ctx.ob("C45.d/result-pairing-preserves-order", f"{b.id}|{which}", not bad,
+                   f"ref updates paired with targets.{which} are built by order-preserving adapters only" if not bad else
+                   f"the vector zipped with targets.{which} is reordered/narrowed by {bad}: git's per-ref verdict is then "
+                   f"attributed to a different bookmark (a rejected one is recorded as pushed)", where=c.where())
+            chains = [x for x in term_calls(a1) if name_matches(x[1], "re:^itertools::chain$|Iterator::chain$")]
+            okc = False
+            for ch in chains:
+                l = {w[3] for w in walk(ch[2][0]) if w[0] == "field" and w[3] in ("bookmarks", "tags")}
+                r = {w[3] for w in walk(ch[2][1]) if w[0] == "field" and w[3] in ("bookmarks", "tags")}
+                okc = l == {"bookmarks"} and r == {"tags"}
+            rng = [w for w in walk(a1) if w[0] == "agg" and ("RangeTo" in str(w[1]) or "RangeFrom" in str(w[1]))]
+            okr = False
+            for w in rng:
+                bound = {v[3] for v in walk(w) if v[0] == "field" and v[3] in ("bookmarks", "tags")}
+                kind = "RangeTo" if "RangeTo" in str(w[1]) else "RangeFrom"
+                okr = bound == {"bookmarks"} and ((which == "bookmarks" and kind == "RangeTo") or (which == "tags" and kind == "RangeFrom"))
+            ctx.ob("C45.d/result-pairing-split", f"{b.id}|{which}", okc and okr,
+                   f"chain(bookmarks, tags) split at bookmarks.len(): {which} use the {'first' if which == 'bookmarks' else 'second'} part"
+                   if okc and okr else "the ref-update vector is not chain(bookmark updates, tag updates) split at bookmarks.len()")
+    ctx.anchor("C45.d", "positional zips of targets.* with ref updates", n, 2)
